@@ -24,12 +24,13 @@ MANIFEST = {
     "category": "proof",
     "text": ("Rocq model of the code emitted by writeCopy / writeCountBytes / writeNodeCopy / writeNodeCopyTo (structural recursion "
              "on the node tree) with theorems by induction on the node: Copy, and CopyTo into any empty destination, return a value "
-             "structurally identical to the source up to nil-versus-empty collections; no call panics. Correspondence and native "
-             "oracle: every case runs the real Copy/CopyTo, the real DeepEqual, and an address-overlap + mutation check of source "
-             "against copy."),
+             "structurally identical to the source up to nil-versus-empty collections; the model of the generated DeepEqual (C05) "
+             "answers true for source and copy (C06_equal = C06_structure composed with C05_copy_equal, refuted for pointer-keyed "
+             "maps); no statement of cpy stores a reference of the source; no call panics. Correspondence and native oracle: every "
+             "case runs the real Copy/CopyTo, the real DeepEqual, and an address-overlap + mutation check of source against copy."),
     "note": ("Trusted: Coq kernel, extraction, Go harness (reflection value builder, overlap and mutation oracle), Go compiler. Value "
-             "trees carry no allocation identity: the no-sharing clause is established by the native oracle on every case, not by "
-             "a theorem (the model has no statement that stores a source reference since fix 7ec5f08). DeepEqual = true on copies "
-             "is observed on every case; its proof needs C05's model of writeNodeDEQ. Known: maps with pointer keys. No axioms."),
+             "trees carry no allocation identity: the no-sharing clause is a theorem about the provenance model cpy_allocs "
+             "(C06_disjoint) and is established on the real code by the native oracle on every case. Known: DeepEqual of maps with "
+             "pointer keys (compared by identity). No axioms."),
     "technique": "Rocq proof by induction on the type tree + extracted-model correspondence and native sharing oracle on generated inspectors",
 }
